@@ -70,6 +70,7 @@ type boxSpec struct {
 	padT, padB dim // px | %
 	borT, borB float64
 	h          dim // auto | px | %
+	minh, maxh dim // none | px | %
 	text       int
 	// horizontal
 	w          dim // auto | px | %
@@ -78,12 +79,13 @@ type boxSpec struct {
 	padL, padR dim
 	borL, borR float64
 	borderBox  bool
+	paddingBox bool // box-sizing: padding-box (borderBox is false)
 	kids       []*boxSpec
 	letter     string
 }
 
 func newBox(id string) *boxSpec {
-	return &boxSpec{id: id, h: auto, w: auto, minw: none, maxw: none, letter: id[:1]}
+	return &boxSpec{id: id, h: auto, w: auto, minw: none, maxw: none, minh: none, maxh: none, letter: id[:1]}
 }
 
 // style returns the declarations of b that differ from the initial values.
@@ -110,6 +112,12 @@ func (b *boxSpec) style() string {
 	}
 	if b.h != auto {
 		add("height", b.h.css())
+	}
+	if b.minh != none {
+		add("min-height", b.minh.css())
+	}
+	if b.maxh != none {
+		add("max-height", b.maxh.css())
 	}
 	if b.w != auto {
 		add("width", b.w.css())
@@ -140,6 +148,8 @@ func (b *boxSpec) style() string {
 	}
 	if b.borderBox {
 		add("box-sizing", "border-box")
+	} else if b.paddingBox {
+		add("box-sizing", "padding-box")
 	}
 	return strings.Join(st, ";")
 }
